@@ -418,6 +418,8 @@ func checkHedged(x *h.X, k *kp, draws []tape.Draw, t *tape.Tape, sig []byte, wha
 			x.Fail("hedged-signature", "%s %s: with rnd=%x from the entropy source the signature differs from FIPS 204 at byte %d", k, what, rnd, diffAt(sig, w))
 		}
 		x.Outcome("tape-rnd")
+	} else if len(draws) == 0 {
+		x.Fail("hedged-no-entropy", "%s %s: the hedged signer drew no entropy from crypto/rand (FIPS 204 hedged signing needs a fresh 32-byte rnd)", k, what)
 	} else {
 		x.Outcome(fmt.Sprintf("entropy-draws=%d", len(draws)))
 	}
